@@ -147,8 +147,11 @@ Section Layout.
     | RFunc fl => loc_contains fl vl = true \/ Out fl a b
     | RName rl | RCall rl => Out rl a b
     end.
+  (* the initialiser list of the declaring statement lies before a (the variable was added after it) *)
+  Definition InitOK (v : ventry) (a : Z) : Prop :=
+    match v_init v with Some il => colok il /\ hi W il <= a | None => True end.
   Definition PosOK (v : ventry) (a b : Z) : Prop :=
-    lo W (v_loc v) <= a /\ 0 <= sc (v_loc v) < W /\ RefOK (v_ref v) (v_loc v) a b.
+    lo W (v_loc v) <= a /\ 0 <= sc (v_loc v) < W /\ (RefOK (v_ref v) (v_loc v) a b /\ InitOK v a).
 
   Lemma out_not_contains rl l a b : Out rl a b -> idok l -> a <= lo W l -> hi W l <= b -> loc_contains rl l = false.
   Proof.
@@ -159,8 +162,12 @@ Section Layout.
 
   Lemma icp_clean v l a b : PosOK v a b -> idok l -> a <= lo W l -> hi W l <= b -> is_correct_position v l = true.
   Proof.
-    intros [H1 [H2 H3]] Hl Ha Hb. unfold is_correct_position.
+    intros [H1 [H2 [H3 H4]]] Hl Ha Hb. unfold is_correct_position.
     rewrite (before_ok (v_loc v) l H2 Hl) by lia. cbn [negb].
+    assert (Hih : init_hides v l = false).
+    { unfold init_hides. unfold InitOK in H4. destruct (v_init v) as [il|]; [|reflexivity].
+      destruct H4 as [Hc Hh]. rewrite (not_contains_before il l Hc Hl) by lia. reflexivity. }
+    rewrite Hih.
     destruct (v_ref v) as [|fl|rl|rl]; cbn [RefOK] in H3.
     - reflexivity.
     - destruct H3 as [H3|H3]; [rewrite H3; reflexivity|].
@@ -173,11 +180,12 @@ Section Layout.
 
   Lemma PosOK_sub v A B a b : PosOK v A B -> A <= a -> b <= B -> PosOK v a b.
   Proof.
-    intros [H1 [H2 H3]] Ha Hb. repeat split; try lia.
-    destruct (v_ref v) as [|fl|rl|rl]; cbn [RefOK] in *; auto.
-    - destruct H3 as [H3|[Hc H3]]; [left; exact H3|right; split; [exact Hc|lia]].
-    - destruct H3 as [Hc H3]. split; [exact Hc|lia].
-    - destruct H3 as [Hc H3]. split; [exact Hc|lia].
+    intros [H1 [H2 [H3 H4]]] Ha Hb. split; [lia|]. split; [lia|]. split.
+    - destruct (v_ref v) as [|fl|rl|rl]; cbn [RefOK] in *; auto.
+      + destruct H3 as [H3|[Hc H3]]; [left; exact H3|right; split; [exact Hc|lia]].
+      + destruct H3 as [Hc H3]. split; [exact Hc|lia].
+      + destruct H3 as [Hc H3]. split; [exact Hc|lia].
+    - unfold InitOK in *. destruct (v_init v) as [il|]; [|exact I]. destruct H4 as [Hc Hh]. split; [exact Hc|lia].
   Qed.
 
   Lemma G_sub vss A B a b : G vss A B -> A <= a -> b <= B -> G vss a b.
@@ -204,10 +212,10 @@ Section Layout.
     end.
 
   Definition EvoVar (a b : Z) (v v' : ventry) : Prop :=
-    v_loc v' = v_loc v /\ (v_ref v' = v_ref v \/ InReg (v_ref v') a b).
+    (v_loc v' = v_loc v /\ v_init v' = v_init v) /\ (v_ref v' = v_ref v \/ InReg (v_ref v') a b).
 
   Lemma EvoVar_refl a b v : EvoVar a b v v.
-  Proof. split; [reflexivity|left; reflexivity]. Qed.
+  Proof. split; [split; reflexivity|left; reflexivity]. Qed.
 
   Lemma InReg_widen r a b a' b' : InReg r a b -> a' <= a -> b <= b' -> InReg r a' b'.
   Proof. destruct r; cbn; auto; intros [H1 [H2 H3]] Ha Hb; repeat split; try apply H1; lia. Qed.
@@ -217,7 +225,7 @@ Section Layout.
 
   Lemma EvoVar_trans a b v1 v2 v3 : EvoVar a b v1 v2 -> EvoVar a b v2 v3 -> EvoVar a b v1 v3.
   Proof.
-    intros [A1 A2] [B1 B2]. split; [congruence|]. destruct B2 as [B2|B2]; [|right; exact B2].
+    intros [[A1 A0] A2] [[B1 B0] B2]. split; [split; congruence|]. destruct B2 as [B2|B2]; [|right; exact B2].
     rewrite B2. exact A2.
   Qed.
 
@@ -225,12 +233,13 @@ Section Layout.
   Lemma PosOK_evo v v' a b a' b' :
     PosOK v a' b' -> EvoVar a b v v' -> (b <= a' \/ b' <= a) -> PosOK v' a' b'.
   Proof.
-    intros [H1 [H2 H3]] [E1 E2] Hd. unfold PosOK. rewrite E1. repeat split; try lia.
-    destruct E2 as [E2|E2]; [rewrite E2; exact H3|].
-    destruct (v_ref v') as [|fl|rl|rl]; cbn [RefOK InReg] in *; auto.
-    - right. destruct E2 as [Hc [Ea Eb]]. split; [exact Hc|lia].
-    - destruct E2 as [Hc [Ea Eb]]. split; [exact Hc|lia].
-    - destruct E2 as [Hc [Ea Eb]]. split; [exact Hc|lia].
+    intros [H1 [H2 [H3 H4]]] [[E1 E0] E2] Hd. unfold PosOK. rewrite E1. split; [lia|]. split; [lia|]. split.
+    - destruct E2 as [E2|E2]; [rewrite E2; exact H3|].
+      destruct (v_ref v') as [|fl|rl|rl]; cbn [RefOK InReg] in *; auto.
+      + right. destruct E2 as [Hc [Ea Eb]]. split; [exact Hc|lia].
+      + destruct E2 as [Hc [Ea Eb]]. split; [exact Hc|lia].
+      + destruct E2 as [Hc [Ea Eb]]. split; [exact Hc|lia].
+    - unfold InitOK in *. rewrite E0. exact H4.
   Qed.
 
   Definition Evo (a b : Z) (vss vss' : list (list ventry)) : Prop := Forall2 (Forall2 (EvoVar a b)) vss vss'.
@@ -275,28 +284,30 @@ Section Layout.
   (* a variable declared inside [A, B] *)
   Definition Born (A B : Z) (v : ventry) : Prop :=
     lo W (v_loc v) <= B /\ 0 <= sc (v_loc v) < W /\
-    match v_ref v with
-    | RNone => True
-    | RFunc fl => loc_contains fl (v_loc v) = true \/ InReg (RFunc fl) A B
-    | r => InReg r A B
-    end.
+    (match v_ref v with
+     | RNone => True
+     | RFunc fl => loc_contains fl (v_loc v) = true \/ InReg (RFunc fl) A B
+     | r => InReg r A B
+     end /\ InitOK v B).
 
   Lemma Born_PosOK A B v a b : Born A B v -> B <= a -> PosOK v a b.
   Proof.
-    intros [H1 [H2 H3]] Ha. repeat split; try lia.
-    destruct (v_ref v) as [|fl|rl|rl]; cbn [RefOK InReg] in *; auto.
-    - destruct H3 as [H3|[Hc [_ H3]]]; [left; exact H3|right; split; [exact Hc|lia]].
-    - destruct H3 as [Hc [_ H3]]. split; [exact Hc|lia].
-    - destruct H3 as [Hc [_ H3]]. split; [exact Hc|lia].
+    intros [H1 [H2 [H3 H4]]] Ha. split; [lia|]. split; [lia|]. split.
+    - destruct (v_ref v) as [|fl|rl|rl]; cbn [RefOK InReg] in *; auto.
+      + destruct H3 as [H3|[Hc [_ H3]]]; [left; exact H3|right; split; [exact Hc|lia]].
+      + destruct H3 as [Hc [_ H3]]. split; [exact Hc|lia].
+      + destruct H3 as [Hc [_ H3]]. split; [exact Hc|lia].
+    - unfold InitOK in *. destruct (v_init v) as [il|]; [|exact I]. destruct H4 as [Hc Hh]. split; [exact Hc|lia].
   Qed.
 
   Lemma Born_widen A B A' B' v : Born A B v -> A' <= A -> B <= B' -> Born A' B' v.
   Proof.
-    intros [H1 [H2 H3]] Ha Hb. repeat split; try lia.
-    destruct (v_ref v) as [|fl|rl|rl]; auto.
-    - destruct H3 as [H3|H3]; [left; exact H3|right; eapply InReg_widen; eauto].
-    - eapply InReg_widen; eauto.
-    - eapply InReg_widen; eauto.
+    intros [H1 [H2 [H3 H4]]] Ha Hb. split; [lia|]. split; [lia|]. split.
+    - destruct (v_ref v) as [|fl|rl|rl]; auto.
+      + destruct H3 as [H3|H3]; [left; exact H3|right; eapply InReg_widen; eauto].
+      + eapply InReg_widen; eauto.
+      + eapply InReg_widen; eauto.
+    - unfold InitOK in *. destruct (v_init v) as [il|]; [|exact I]. destruct H4 as [Hc Hh]. split; [exact Hc|lia].
   Qed.
 
   (* statement level: the innermost frame gains declarations *)
@@ -323,10 +334,11 @@ Section Layout.
     - eapply Forall2_trans; [apply EvoVar_trans|exact F1|exact Fb].
     - apply Forall_app. split; [exact B2|].
       eapply Forall_Forall2_evo; [|exact B1|exact Fa].
-      intros v v' [H1 [H2 H3]] [E1 E2']. unfold Born. rewrite E1. repeat split; try lia.
-      destruct E2' as [E2'|E2'].
-      + rewrite E2'. destruct (v_ref v); auto.
-      + destruct (v_ref v') as [|fl|rl|rl]; auto; try (right; exact E2').
+      intros v v' [H1 [H2 [H3 H4]]] [[E1 E0] E2']. unfold Born. rewrite E1. split; [lia|]. split; [lia|]. split.
+      * destruct E2' as [E2'|E2'].
+        -- rewrite E2'. destruct (v_ref v); auto.
+        -- destruct (v_ref v') as [|fl|rl|rl]; auto; try (right; exact E2').
+      * unfold InitOK in *. rewrite E0. exact H4.
     - eapply Evo_trans; eassumption.
   Qed.
 
